@@ -231,3 +231,19 @@ add("C31", "open children clip off by one", GRP, "return super().children(index.
 add("C31", "flat children converted at the wrong level", GRP, "        return self.index2flatindex(children, +1)", "        return self.index2flatindex(children)", "R31.3")
 add("C31", "flat parent level shift sign", GRP, "        return self.index2flatindex(window, -1)", "        return self.index2flatindex(window, +1)", "R31.3")
 VARIANTS = V
+
+LZP = "nifty/re/num/lanczos.py"
+add("C34", "lanczos forgets the previous vector", LZP, "w = w - a * v_curr__ - jnp.where(i > 0, beta_full__[i - 1] * v_prev__, 0.0)", "w = w - a * v_curr__", "R34.1")
+add("C34", "lanczos uses beta of the current step", LZP, "jnp.where(i > 0, beta_full__[i - 1] * v_prev__, 0.0)", "jnp.where(i > 0, beta_full__[i] * v_prev__, 0.0)", "R34.1")
+add("C34", "lanczos keeps the old previous vector", LZP, "            v_prev2 = v_curr__\n", "            v_prev2 = v_prev__\n", "R34.1")
+add("C34", "quadrature weights not squared", LZP, "    terms = first_evec_components**2 * fe", "    terms = first_evec_components * fe", "R34.2")
+add("C34", "gauss quadrature uses the last eigenvector row", LZP, "        return _quadrature_from_eigh(\n            evals,\n            evecs[0, :],\n            fn,",
+    "        return _quadrature_from_eigh(\n            evals,\n            evecs[-1, :],\n            fn,", "R34.2")
+add("C34", "radau correction without beta squared", LZP, "alpha_last_hat = mu + (beta_last**2) * g", "alpha_last_hat = mu + beta_last * g", "R34.2")
+add("C34", "tridiagonal not symmetric", LZP, "return jnp.diag(alpha) + jnp.diag(off, 1) + jnp.diag(off, -1)", "return jnp.diag(alpha) + jnp.diag(off, 1)", "R34.2")
+add("C34", "classic ELBO adds the full dimension", "nifty/cl/evidence_lower_bound.py", "posterior_contribution = Field.scalar(tr_log_lat_cov + 0.5 * metric_size)", "posterior_contribution = Field.scalar(tr_log_lat_cov + metric_size)", "R34.3")
+add("C34", "jax ELBO trace-log sign", "nifty/re/evidence_lower_bound.py", "        tr_log_lat_cov = -0.5 * exact_log\n", "        tr_log_lat_cov = 0.5 * exact_log\n", "R34.3")
+add("C34", "jax analytic prior keeps the full Hamiltonian", "nifty/re/evidence_lower_bound.py", "sample_energy = likelihood if analytic_prior_term else hamiltonian", "sample_energy = hamiltonian", "R34.3")
+add("C34", "classic prior term forgets the mean", "nifty/cl/evidence_lower_bound.py", "prior_term = Field.scalar(0.5 * (trace_inv_total + prior_mean_sq))", "prior_term = Field.scalar(0.5 * trace_inv_total)", "R34.3")
+add("C34", "classic lower bound adds the lower error", "nifty/cl/evidence_lower_bound.py", 'elbo_lw = elbo_mean - elbo_var.sqrt() - stats["lower_error"]', 'elbo_lw = elbo_mean - elbo_var.sqrt() + stats["lower_error"]', "R34.3")
+VARIANTS = V
